@@ -178,23 +178,30 @@ def wrappers_mean_what_they_say(ctx):
     # reduced(reducer, arraylike)(f): result = f(*args, **kwds); reducer(result) if iterable else result
     for q in ('mystic.tools:reduced.dec.func', 'mystic.tools:reduced.dec.func#2'):
         f = ctx.func(q)
-        b = T.Builder()
-        ret = None
-        for st in f.node.body:
-            if isinstance(st, ast.Return):
-                ret = T.simp(b.t(st.value))
-                break
-            b.exec_stmt(st)
-        ctx.need(ret is not None and ret[0] == 'ifexp', 'reduced: unexpected return shape')
         res = ('call', ('name', 'f'), (('star', ('name', 'args')),), ((None, ('name', 'kwds')),))
+        itb = ('call', ('name', 'isiterable'), (res,), ())
         arraylike = q.endswith('func')
-        good = ret[3] == res and ret[1] == ('call', ('name', 'isiterable'), (res,), ()) and ret[2][0] == 'call' and \
-            (ret[2] == ('call', ('name', 'reducer'), (res,), ()) if arraylike else
-             ret[2] == ('call', ('name', 'reduce'), (('name', 'reducer'), res), ()))
-        ctx.stats['terms_compared'] += 1
+        red = ('call', ('name', 'reducer'), (res,), ()) if arraylike else ('call', ('name', 'reduce'), (('name', 'reducer'), res), ())
+        rts = return_terms(f.node)
+        ctx.need(rts, 'reduced: no return')
+        good = True
+        shown = []
+        for p, term, b, conds in rts:
+            # every way out: the reducer's value exactly when the result is iterable (any length, 1 included), the result itself otherwise
+            for cl, leaf in T.cases(term):
+                lits = [(c[0], c[1]) for c in conds] + list(cl)
+                d = decided(itb, lits)
+                shown.append('%s under %s' % (T.show(leaf)[:40], [(T.show(a)[:30], tr) for a, tr in lits]))
+                if leaf == red:
+                    good = good and d is True and all(a == itb for a, tr in lits)
+                elif leaf == res:
+                    good = good and d is False and all(a == itb for a, tr in lits)
+                else:
+                    good = False
+        ctx.stats['terms_compared'] += len(rts)
         ctx.check(good, 'reduced.dec.func[%s]' % ('arraylike' if arraylike else 'pairwise'),
-                  'returns reducer(result) if iterable else result, result = f(*args, **kwds)',
-                  'reduced returns %s' % T.show(ret), f, f.node)
+                  'returns reducer(result) if iterable else result, result = f(*args, **kwds), on every path',
+                  'reduced returns %s' % shown[:3], f, f.node)
     # wrap_reducer (SetReducer without arraylike): a pairwise reducer is folded over the cost vector itself - no seed
     # value takes part (a seed of 0.0 would change max / product reductions)
     f = ctx.func('mystic.tools:wrap_reducer._reduce')
@@ -576,3 +583,56 @@ def ensemble_reports_its_best_members_pair(ctx):
     """ensemble solvers report the (point, energy) pair of one member: __update_state hands bestSolution and bestEnergy (with population, popEnergy, the counter) back from the same best member on every path on which the scan found one - the arrays are shared with the member but the energy is a scalar copy, so a skipped hand-back leaves cost(bestSolution) != bestEnergy (shared with C09.a)"""
     from .c09 import reduction
     reduction(ctx)
+
+
+@rule('C01.l', min_instances=7)
+def constrained_vectors_stay_float(ctx):
+    """Nelder-Mead / Powell: every constrained image that becomes a simplex vertex / the current point is stored as float64 (asarray(constraints(v), dtype='float64')) at ALL sites - a constraint that returns integers (mystic.constraints.integers) would otherwise turn the whole simplex into an integer array, later vertices are truncated when stored while their energies belong to the untruncated points"""
+    n = 0
+    for anchor in ('mystic.scipy_optimize:NelderMeadSimplexSolver._Step', 'mystic.scipy_optimize:PowellDirectionalSolver._Step'):
+        f = ctx.func(anchor)
+        cons = set()
+        for s in stmts_of(f.node):
+            if isinstance(s, ast.Assign) and len(s.targets) == 1 and isinstance(s.targets[0], ast.Name) and \
+                    any(isinstance(x, ast.Attribute) and x.attr == '_constraints' for x in ast.walk(s.value)):
+                cons.add(s.targets[0].id)
+        ctx.need(cons, '%s: no local holds the constraints' % f.qualname)
+        for st in stmts_of(f.node):
+            if not isinstance(st, ast.Assign):
+                continue
+            calls = [c for c in ast.walk(st.value) if isinstance(c, ast.Call) and isinstance(c.func, ast.Name) and c.func.id in cons]
+            if not calls:
+                continue
+            n += 1
+            v = st.value
+            ok_ = isinstance(v, ast.Call) and callee_text(v) in ('asarray', 'numpy.asarray', 'array', 'numpy.array') and v.args and v.args[0] is calls[0] and \
+                any(k.arg == 'dtype' and const_value(k.value) in ('float64', 'float') or (k.arg == 'dtype' and unparse(k.value) in ('float', 'float64', 'numpy.float64')) for k in v.keywords)
+            ctx.check(ok_, '%s#float[%d]' % (f.qualname, n), 'constrained image stored as float64', '%s stores a constrained vector without the float64 cast its sibling sites apply: %s' % (f.qualname, norm_stmt(st)[:80]), f, st)
+    ctx.need(n >= 7, 'expected >= 7 constrained-image stores in NM / Powell, found %d' % n)
+
+
+@rule('C01.m', min_instances=1)
+def objective_is_replaced_unless_cost_and_arguments_are_both_unchanged(ctx):
+    """SetObjective keeps the stored objective only when the cost is unchanged (None / the raw cost / the decorated cost) AND the extra arguments are unchanged (None / the stored ones): truth-table equivalence of the early return's path condition with that conjunction - with the conjunction mis-parenthesised, re-registering the same cost with new ExtraArgs silently keeps the old arguments and the reported energy is not cost(x, *args)"""
+    from .. import pathcond as PC
+    f = ctx.func('mystic.abstract_solver:AbstractSolver.SetObjective')
+    stores = [s for s in stmts_of(f.node) if isinstance(s, ast.Assign) and any(is_self_attr(tg, '_cost', selfname_of(f)) for tg in s.targets)]
+    ctx.need(stores, 'SetObjective no longer stores self._cost')
+    last = stores[-1].lineno
+
+    def classify(ret, b):
+        return 'keep' if ret.lineno < last else 'set'
+    forms, n = PC.outcome_formulas(f.node, classify, relevant=lambda nd: isinstance(nd, (ast.Return, ast.Assign)))
+    ctx.stats['paths_enumerated'] += n
+    ctx.need('keep' in forms, 'SetObjective has no early return any more')
+    cp, ap = f.args()[1], f.args()[2]
+    prelude = [norm_stmt(s) for s in f.node.body if isinstance(s, ast.Assign) and s.lineno < last and isinstance(s.targets[0], (ast.Tuple, ast.Name))
+               and 'self._cost' in unparse(s.value)][:1]
+    ctx.need(prelude, 'SetObjective no longer unpacks self._cost')
+    names = [e.id for e in ast.parse(prelude[0]).body[0].targets[0].elts]
+    want = PC.spec_formula('(%s is None or %s is %s or %s is %s) and (%s is None or %s is %s)' % (cp, cp, names[1], cp, names[0], ap, ap, names[2]), prelude)
+    eq, cex, rows = PC.equivalent(forms['keep'], want)
+    ctx.stats['truth_table_rows'] += rows
+    ctx.check(eq, 'SetObjective#keep', 'early return iff cost unchanged and ExtraArgs unchanged (%d truth-table rows)' % rows,
+              'SetObjective keeps the stored objective although cost or ExtraArgs changed: e.g. with %s true and all other tests false'
+              % ([T.show(a)[:40] for a, v in (cex or {}).items() if v]), f, f.node)
